@@ -30,6 +30,7 @@ type lifeOp struct {
 
 type lifeInput struct {
 	InMem bool     `json:"in_mem"`
+	SameID bool    `json:"same_id,omitempty"` // every feed is started with the same FeedArguments.ID
 	Ops   []lifeOp `json:"ops"`
 }
 
@@ -151,7 +152,11 @@ func execLife(in lifeInput, scratch string) (Case, error) {
 					if exists {
 						if ds, e := h.NamedDataStore(dsName(op.Coll)); e == nil {
 							f := &lifeFeed{id: op.F, dump: op.Dump, term: make(chan bool), done: make(chan struct{}), rel: make(chan struct{})}
-							args := sgbucket.FeedArguments{ID: fmt.Sprintf("life%d", op.F), Backfill: sgbucket.FeedNoBackfill, Terminator: f.term, DoneChan: f.done}
+							fid := fmt.Sprintf("life%d", op.F)
+							if in.SameID {
+								fid = "life"
+							}
+							args := sgbucket.FeedArguments{ID: fid, Backfill: sgbucket.FeedNoBackfill, Terminator: f.term, DoneChan: f.done}
 							if op.Dump {
 								args.Backfill, args.Dump = 0, true
 							}
@@ -267,7 +272,7 @@ func execLife(in lifeInput, scratch string) (Case, error) {
 }
 
 func genLife(r *rand.Rand) lifeInput {
-	in := lifeInput{InMem: r.Intn(2) == 0}
+	in := lifeInput{InMem: r.Intn(2) == 0, SameID: r.Intn(2) == 0}
 	colls := []string{"_default._default"}
 	open := map[int]bool{}
 	add := func(o lifeOp) { in.Ops = append(in.Ops, o) }
